@@ -17,7 +17,7 @@ class BackendConvert(Contract):
     (may return any list).  Number of rules unrolled (0..2, both rule kinds) - stated bound; everything else symbolic."""
     id = "C08.Backend.convert"
     target = "sigma.conversion.base:Backend.convert"
-    props = ("C08", "C14", "C15")
+    props = ("C08", "C14", "C15", "C09")
     cases = ("", "R", "C", "RR", "RC", "CR", "CC")
     assumed = ["convert_rule / convert_correlation_rule / finalize / init_processing_pipeline are abstract callees with their own contracts", "collections of 0..2 rules (unrolled)"]
 
@@ -58,7 +58,10 @@ class BackendConvert(Contract):
             o.ghost.update(name=f"r{i}", nq=(i % 2) + 1, kind=kd)
             rules.append(o)
         coll = SObj(I.E.index.lookup("sigma.collection:SigmaCollection"), {"rules": rules}, lazy=True)
-        I.E.summaries["sigma.collection:SigmaCollection.resolve_rule_references"] = lambda I2, so, a, k: I2.E._trace.append(("resolve",))
+        def s_resolve(I2, so, a, k):       # resolution REBINDS collection.rules to a new list in reference order (here: the reverse order)
+            I2.E._trace.append(("resolve",))
+            so.fields["rules"] = list(reversed(so.fields["rules"]))
+        I.E.summaries["sigma.collection:SigmaCollection.resolve_rule_references"] = s_resolve
         # pre-state: the backend may have converted before (a combined pipeline of an earlier run is still attached)
         I.E.opaque_methods[("Dict", "get")] = ((), "str")
         old = SObj(I.E.index.lookup("sigma.processing.pipeline:ProcessingPipeline"), {"vars": I.fresh("old_vars", "opaque", "Dict")}, lazy=True)
@@ -72,8 +75,8 @@ class BackendConvert(Contract):
         c.require(len(t) >= 1 and t[0][0] == "init", "the processing pipeline is (re)initialised before anything else in every convert() call")
         c.require(len(t) >= 2 and t[1][0] == "resolve", "rule references are resolved before conversion")
         body = t[2:-1]
-        want = [("convert_rule" if x.ghost["kind"] == "R" else "convert_correlation_rule", x.ghost["name"]) for x in inp["rules"]]
-        c.require([(x[0], x[1]) for x in body] == want, "every rule is converted exactly once, in collection order, by the converter for its kind")
+        want = [("convert_rule" if x.ghost["kind"] == "R" else "convert_correlation_rule", x.ghost["name"]) for x in reversed(inp["rules"])]
+        c.require([(x[0], x[1]) for x in body] == want, "every rule is converted exactly once, in the collection's order AFTER reference resolution, by the converter for its kind")
         ok = len(t) >= 1 and t[-1][0] == "finalize"
         c.require(ok, "finalize runs once, last")
         if ok:
